@@ -6,7 +6,7 @@
    Not covered by a theorem: Go-level panics inside the nodify callbacks (type assertions on
    node positions); the model gives every callback the node shapes the grammar produces.
    Their absence is validated by the correspondence runs only. *)
-From QV Require Import Sig Peg SigParse SigParseProofs.
+From QV Require Import Sig Peg SigParse SigParseProofs Idl IdlProofs.
 From Coq Require Import NArith.
 Local Open Scope string_scope.
 
@@ -25,6 +25,12 @@ Print Assumptions C09_fixed_point.
 Theorem C09_accepts_grammar_only : forall s t, parse s = POk t -> wf_ty t = true.
 Proof. exact parse_wf. Qed.
 Print Assumptions C09_accepts_grammar_only.
+
+(* ... and the accepted input is that type's printed signature, with white space between tokens
+   at most: every other string is rejected *)
+Theorem C09_accepts_only_printed_signatures : forall s t, parse s = POk t -> unspace s = print t.
+Proof. exact parse_canonical. Qed.
+Print Assumptions C09_accepts_only_printed_signatures.
 
 (* any input is accepted or rejected with an error: the recursion bound chosen by Parse's model
    (length of the input + 1) is never reached, Kleene never spins *)
@@ -53,6 +59,15 @@ Print Assumptions C09_names_consistent_members.
 Theorem C09_names_consistent_object : go_type (TS SObject) = go_type ty_ObjectReference.
 Proof. exact go_type_object. Qed.
 Print Assumptions C09_names_consistent_object.
+
+(* IDL name: SignatureIDL() of a type (without void/empty tuple inside, struct names not beginning
+   with a basic type name or a container keyword: idl_safe) is read back by the IDL type parser, and
+   resolved through a scope declaring the structs it is the type's signature again (layer 1 of C18) *)
+Theorem C09_names_consistent_idl : forall t sc g, idl_safe t = true -> scope_has sc t -> ty_depth t < g ->
+  exists i, fst (itype (S (String.length (idl_name t))) (idl_name t)) = Ok (NVal (VType i)) "" /\
+            isig g sc i = Some (print t).
+Proof. exact idl_type_roundtrip. Qed.
+Print Assumptions C09_names_consistent_idl.
 
 (* Type() itself: total once the two reflect panics are repaired ... *)
 Theorem C09_holds_type_total : forall cfg t, c_key_panic cfg = false -> c_dup_panic cfg = false ->
